@@ -262,4 +262,6 @@ func VerifSendBodyNoRetry() { verifSend(true, false, true) }
 
 // VerifFindingSendBodyRetry: requests with a body and a retry budget (see
 // FINDINGS.md).
-func VerifFindingSendBodyRetry() { verifSend(true, true, false) }
+func VerifFindingSendBodyRetry() {
+	verifSend(true, true, verif.Bound("all_code_sets_with_bodies", 0, 1) == 1)
+}
